@@ -203,7 +203,7 @@ func TestVerifC02Gating(t *testing.T) {
 			}
 
 			x := c02XFor(t, cfg.SampleRate)
-			status := rapid.SampledFrom([]int{200, 200, 200, 500, 400}).Draw(t, "serverStatus")
+			status := rapid.SampledFrom([]int{200, 200, 200, 200, 500, 503, 400, 404, 408, 429}).Draw(t, "serverStatus")
 			srv.Status = func(vuRequest) int { return status }
 			before := vsnap.Take(dir)
 			u := vuUploader(dir, cfg, "v1.2.3", srv.URL(), now)
@@ -300,7 +300,7 @@ func TestVerifC02Gating(t *testing.T) {
 				if status == 200 {
 					w.acked = true
 				}
-				if status == 400 {
+				if status >= 400 && status < 500 {
 					w.uploadable = false // discarded
 				}
 			}
